@@ -6,7 +6,7 @@
    under every flag setting; the standard module itself is used as an executable oracle by the harness. *)
 From XD Require Import Model.Base Model.Ellipsis Model.Checker Model.Text Model.Parser Model.Directive Model.RunLoop
   Proofs.RunWant Proofs.RunDecide Proofs.CompatProofs Model.StdDoctest Proofs.StdEllipsisProofs
-  Model.StdOutput Proofs.StdOutputProofs.
+  Model.StdOutput Proofs.StdOutputProofs Spec.EllipsisSpec Proofs.EllCollapse Proofs.StdOutputFull.
 
 Theorem C20_exact_output_accepted : forall fl got want, got = want -> check_output fl got want = true.
 Proof. exact exact_output_accepted. Qed.
@@ -64,20 +64,40 @@ Proof. exact compat_refuted_F6f. Qed.
 Print Assumptions C20_compat_refuted_F6f.
 
 (* ---- the whole comparison of the standard OutputChecker (Model/StdOutput.v: exact, True-for-1, <BLANKLINE> rewriting,
-   NORMALIZE_WHITESPACE, ELLIPSIS) implies check_output in xdoctest's default state.  The want is given by its lines
-   (each the marker, or free of the marker text); Plain = no colour codes, no string-prefix letters in front of quotes,
-   no carriage returns.  Every hypothesis is needed: F6d, F6f, F6g, F6h, F6i below are the witnesses.
-   PARTIAL: the standard side's flag setting ELLIPSIS without NORMALIZE_WHITESPACE is not covered by this statement *)
-Theorem C20_std_output_accepted_partial : forall e n ls got,
+   NORMALIZE_WHITESPACE, ELLIPSIS; tied to CPython's doctest.OutputChecker by correspondence) implies check_output in
+   xdoctest's default state, for every flag setting a '# doctest:' directive can produce (e = ELLIPSIS, n =
+   NORMALIZE_WHITESPACE).  The want is given by its lines (each the marker, or free of the marker text);
+   Plain = no colour codes, no string-prefix letters in front of quotes, no carriage returns.  Every hypothesis is
+   needed: F6d, F6f, F6g, F6h, F6i below are the witnesses on which the unchanged code is stricter. *)
+Theorem C20_std_output_accepted : forall e n ls got,
   ls <> [] -> Forall LineOK ls -> Plain got -> Plain (join_nl ls) ->
   contains BLANKLINE got = false ->
   true_for_1 (join_nl ls ++ [NL]) got = false ->
   (e = true -> contains marker (collapse_ws got) = false) ->
-  (e = true -> n = true) ->
   std_check_output e n (join_nl ls ++ [NL]) got = true ->
   check_output default_flags got (join_nl ls) = true.
-Proof. exact std_output_accepted_partial. Qed.
-Print Assumptions C20_std_output_accepted_partial.
+Proof. exact std_output_accepted. Qed.
+Print Assumptions C20_std_output_accepted.
+
+(* the lemma behind the ELLIPSIS-only case: the wildcard relation survives ' '.join(text.split()) on both texts *)
+Theorem C20_ellmatch_collapse : forall g w, EllMatch g w -> EllMatch (collapse_ws g) (collapse_ws w).
+Proof. exact ellmatch_collapse. Qed.
+Print Assumptions C20_ellmatch_collapse.
+
+(* ... and re.split(r'\s*\.\.\.\s*') commutes with it, piece by piece *)
+Theorem C20_split_collapse : forall w, split_ell (collapse_ws w) = map collapse_ws (split_ell w).
+Proof. intros w. rewrite cgo_collapse, split_ell_C. apply map_ext. intros a. symmetry. apply cgo_collapse. Qed.
+Print Assumptions C20_split_collapse.
+
+(* the hypotheses are satisfiable under ELLIPSIS alone, where the plain comparison fails *)
+Theorem C20_std_output_ellipsis_example :
+  demo2_want_lines <> [] /\ Forall LineOK demo2_want_lines /\ Plain demo2_got /\ Plain (join_nl demo2_want_lines) /\
+  contains BLANKLINE demo2_got = false /\ true_for_1 (join_nl demo2_want_lines ++ [NL]) demo2_got = false /\
+  contains marker (collapse_ws demo2_got) = false /\
+  std_check_output true false (join_nl demo2_want_lines ++ [NL]) demo2_got = true /\
+  std_check_output false false (join_nl demo2_want_lines ++ [NL]) demo2_got = false.
+Proof. exact demo_std_output_ellipsis_hyps. Qed.
+Print Assumptions C20_std_output_ellipsis_example.
 
 (* the hypotheses are satisfiable with a marker line and differing blanks, past the identity shortcut *)
 Theorem C20_std_output_hyps_example :
